@@ -82,7 +82,7 @@ def stdout_frame(repo, files, allowed):
     for rel in files:
         path = os.path.join(repo, rel)
         if not os.path.exists(path):
-            records.append({'name': 'stdout.frame.%s.<file>' % rel, 'ok': False, 'detail': 'file is missing', 'site': rel})
+            records.append({'name': 'stdout.frame.%s.<file>' % rel, 'ok': False, 'undecided': True, 'detail': 'file is missing', 'site': rel})
             continue
         for qn, node in functions_of(path):
             sites = stdout_sites(node)
@@ -110,7 +110,7 @@ def open_encoding_frame(repo, files, allow_substrings, allow_functions=()):
     for rel in files:
         path = os.path.join(repo, rel)
         if not os.path.exists(path):
-            records.append({'name': 'encoding.match.%s.<file>' % rel, 'ok': False, 'detail': 'file is missing', 'site': rel})
+            records.append({'name': 'encoding.match.%s.<file>' % rel, 'ok': False, 'undecided': True, 'detail': 'file is missing', 'site': rel})
             continue
         for qn, node in functions_of(path):
             bad = []
@@ -170,7 +170,7 @@ def readonly_frame(repo, specs, may_call=(), tag='readonly', immutable_params=()
             by_file[rel] = dict(functions_of(path)) if os.path.exists(path) else {}
         node = by_file[rel].get(qn)
         if node is None:
-            records.append({'name': name, 'ok': False, 'detail': 'function not found', 'fn': key, 'site': key})
+            records.append({'name': name, 'ok': False, 'undecided': True, 'detail': 'function not found (renamed or moved?)', 'fn': key, 'site': key})
             continue
         params = {a.arg for a in node.args.args}
         if only is not None:
@@ -263,7 +263,7 @@ def fs_write_frame(repo, rel, allowed, tag='fs'):
     path = os.path.join(repo, rel)
     records = []
     if not os.path.exists(path):
-        return [{'name': '%s.frame.%s.<file>' % (tag, rel), 'ok': False, 'detail': 'file is missing', 'site': rel}]
+        return [{'name': '%s.frame.%s.<file>' % (tag, rel), 'ok': False, 'undecided': True, 'detail': 'file is missing', 'site': rel}]
     for qn, node in functions_of(path):
         sites = []
         for ch in ast.walk(node):
@@ -318,7 +318,7 @@ def shared_state_frame(repo, files, tag='state'):
         path = os.path.join(repo, rel)
         base = '%s.frame.%s' % (tag, rel.replace('/', '.').replace('.py', ''))
         if not os.path.exists(path):
-            records.append({'name': base + '.<file>', 'ok': False, 'detail': 'file is missing', 'site': rel})
+            records.append({'name': base + '.<file>', 'ok': False, 'undecided': True, 'detail': 'file is missing', 'site': rel})
             continue
         with open(path, encoding='utf-8') as fh:
             tree = ast.parse(fh.read())
